@@ -474,3 +474,31 @@ def workload(ctx, lentil):
         ctx.close('value=op(interp)', np.asarray(res.value, float)[inner], ref[inner], 1e-5, 'blackbody|value',
                   'Blackbody times spectrum is not Planck(w) times the interpolated spectrum', {'unit': unit, 'T': T},
                   scale=float(np.max(np.abs(ref[inner]))) if inner.any() else 1.0)
+        # a spectrum that reaches beyond the range the Blackbody was built on: out there the Blackbody is not defined and takes
+        # the fill value like any other operand (it is not extrapolated with Planck's law)
+        wc = make_grid(rng, float(rng.uniform(250, 380)), float(rng.uniform(1050, 1400)), int(rng.integers(4, 20)), True)
+        vc = rng.uniform(0.1, 1, size=len(wc))
+        Cs = in_unit(R, wc, vc, unit)
+        fillv = 0 if i % 2 else float(rng.uniform(0.5, 2))
+        ctx.bucket('blackbody:narrower-than-operand')
+        for order in ('bb-first', 'bb-second'):
+            try:
+                if order == 'bb-first':
+                    r_add, r_mul = bb.add(Cs, fill_value=fillv), bb.multiply(Cs, fill_value=fillv)
+                else:
+                    r_add, r_mul = Cs.add(bb, fill_value=fillv), Cs.multiply(bb, fill_value=fillv)
+            except Exception as e:
+                ctx.check(False, 'value=op(interp)', f'blackbody|outside|raises={type(e).__name__}', str(e), {'unit': unit, 'order': order})
+                continue
+            for nm_, rr, opf in (('add', r_add, np.add), ('multiply', r_mul, np.multiply)):
+                g2 = np.asarray(rr.wave, float) * sm.wave_factor(rr.waveunit, 'nm')
+                outside = (g2 < wnm[0] * (1 - 1e-9)) | (g2 > wnm[-1] * (1 + 1e-9))
+                # (the end samples of the other operand are ties after a unit conversion: in or out by one ulp)
+                outside &= (np.abs(g2 - wc[0]) > 1e-9 * wc[0]) & (np.abs(g2 - wc[-1]) > 1e-9 * wc[-1])
+                if not outside.any():
+                    continue
+                want = opf(fillv, sm.interp_linear(g2, wc, vc, fillv))
+                ctx.close('value=op(interp)', np.asarray(rr.value, float)[outside], want[outside], 1e-9, f'blackbody|outside-range|{nm_}',
+                          'outside the range a Blackbody was built on its operand value is not the fill value', {'unit': unit, 'order': order,
+                                                                                                                 'fill': fillv},
+                          scale=max(float(np.max(np.abs(want[outside]))), 1e-300))
